@@ -8,6 +8,8 @@
 pub mod client;
 pub mod oracle;
 pub mod reference;
+pub mod shrink;
+pub mod crashenum;
 pub mod workload;
 
 use crate::backend::Backend;
@@ -93,6 +95,8 @@ pub struct Sim<'j> {
     rng_sched: Rng,
     rng_work: Rng,
     rng_fault: Rng,
+    rng_sizes: Rng,
+    rng_time: Rng,
     pub step: u64,
     pub res: RunResult,
     log: u64,
@@ -177,8 +181,20 @@ pub fn derive_cfg(job: &Job) -> SimCfg {
         serial_adds: true,
         max_restarts: 3,
         word_domain_wide: r.chance(1, 3),
+        end_with_shutdown: false,
+        paths_at_start: false,
     };
-    match mode {
+    gen_cfg.end_with_shutdown = {
+        let f = job.params.get("focus").and_then(|v| v.as_str()).unwrap_or(mode);
+        f == "stats" || (f == "paths" && r.chance(1, 2))
+    };
+    let focus = job.params.get("focus").and_then(|v| v.as_str()).unwrap_or(mode);
+    if job.prop == "C07" {
+        // C07 is about words, not about moving dictionaries: paths are chosen once per session
+        gen_cfg.use_paths = false;
+        gen_cfg.paths_at_start = true;
+    }
+    match focus {
         "crash" => {
             gen_cfg.weights.crash = 4;
             gen_cfg.weights.add_user = 14;
@@ -192,7 +208,17 @@ pub fn derive_cfg(job: &Job) -> SimCfg {
             gen_cfg.weights.restart = 3;
             gen_cfg.weights.code_action = 8;
         }
+        "paths" => {
+            gen_cfg.use_paths = true;
+            gen_cfg.weights.config = 10;
+            gen_cfg.weights.add_user = 8;
+            gen_cfg.weights.add_file = 8;
+            gen_cfg.weights.record = 6;
+            gen_cfg.weights.code_action = 8;
+            gen_cfg.weights.restart = 3;
+        }
         "stats" => {
+            gen_cfg.use_paths = true;
             gen_cfg.weights.record = 14;
             gen_cfg.weights.code_action = 14;
             gen_cfg.weights.restart = 6;
@@ -247,6 +273,8 @@ impl<'j> Sim<'j> {
             rng_sched: Rng::derive(job.seed, "scheduler"),
             rng_work,
             rng_fault: Rng::derive(job.seed, "faults"),
+            rng_sizes: Rng::derive(job.seed, "sizes"),
+            rng_time: Rng::derive(job.seed, "time"),
             step: 0,
             res: RunResult::new(job),
             log: 0xcbf29ce484222325,
@@ -310,12 +338,15 @@ impl<'j> Sim<'j> {
             PollOutcome::Panicked(m) => {
                 self.note(&format!("server-panic {m}"));
                 self.server_dead_reason = Some(m.clone());
-                let facts = json!({"panic": m});
+                let loc = crate::exec::LAST_PANIC_LOCATION.lock().map(|l| l.clone()).unwrap_or_default();
+                let loc = loc.strip_prefix("/repo/").unwrap_or(&loc).to_string();
+                let langs: Vec<String> = self.client.docs.iter().map(|d| d.lang.clone()).collect();
+                let facts = json!({"panic": m, "location": loc, "langs": langs});
                 self.res.violate(Violation {
                     property: oracle::panic_property(&self.job.prop),
                     oracle: "server_alive".into(),
                     class: "server_panic".into(),
-                    detail: format!("the language server panicked: {m}"),
+                    detail: format!("the language server panicked at {loc}: {m}"),
                     facts,
                 });
             }
@@ -352,7 +383,8 @@ impl<'j> Sim<'j> {
         }
         let quiet = evs.is_empty();
         let seq = self.cfg.policy == Policy::Sequential;
-        let wait = self.peek_entry().map(|e| e.wait_quiet || seq);
+        // a crash never waits for the server to be idle, under any policy
+        let wait = self.peek_entry().map(|e| !matches!(e.op, Op::Kill { .. }) && (e.wait_quiet || seq));
         match wait {
             Some(true) if quiet => evs.push(Ev::Send),
             Some(false) => evs.push(Ev::Send),
@@ -398,19 +430,28 @@ impl<'j> Sim<'j> {
         }
     }
 
-    fn choose(&mut self, evs: &[Ev]) -> usize {
+    /// Pick the next event; in replay also the recorded size parameter (bytes delivered / drained).
+    fn choose(&mut self, evs: &[Ev]) -> (usize, Option<usize>) {
         // replay by trace: follow the recorded labels while they are enabled
         if let Some(rd) = self.replay_decisions.as_mut() {
             if let Some(want) = rd.pop_front() {
+                let (want_base, param) = match want.split_once('=') {
+                    Some((b, n)) => (b.to_string(), n.parse::<usize>().ok()),
+                    None => (want.clone(), None),
+                };
                 let labels: Vec<String> = evs.iter().map(|e| self.label(e)).collect();
-                if let Some(i) = labels.iter().position(|l| *l == want) {
-                    return i;
+                if let Some(i) = labels.iter().position(|l| *l == want_base) {
+                    return (i, param);
                 }
                 self.diverged += 1;
             }
-            // canonical default: the first enabled event
-            return 0;
+            // canonical default: the first enabled event, whole buffers
+            return (0, Some(usize::MAX));
         }
+        (self.choose_by_policy(evs), None)
+    }
+
+    fn choose_by_policy(&mut self, evs: &[Ev]) -> usize {
         match self.cfg.policy {
             Policy::Sequential => 0,
             Policy::Random => {
@@ -472,15 +513,24 @@ impl<'j> Sim<'j> {
         }
     }
 
-    fn fire(&mut self, ev: Ev) {
+    /// Fire an event.  Returns the size parameter used (recorded in the decision label).
+    fn fire(&mut self, ev: Ev, param: Option<usize>) -> Option<usize> {
         match ev {
-            Ev::Send => self.do_send(),
+            Ev::Send => {
+                self.do_send();
+                None
+            }
             Ev::Deliver => {
                 // fragment at most every third delivery, so that byte-sized chunks cannot eat the step budget
-                let n = if self.cfg.chunk_max == 0 || !self.rng_sched.chance(1, 3) {
-                    self.wire.len()
-                } else {
-                    self.rng_sched.range(1, self.cfg.chunk_max).min(self.wire.len())
+                let n = match param {
+                    Some(p) => p.min(self.wire.len()).max(1),
+                    None => {
+                        if self.cfg.chunk_max == 0 || !self.rng_sizes.chance(1, 3) {
+                            self.wire.len()
+                        } else {
+                            self.rng_sizes.range(1, self.cfg.chunk_max).min(self.wire.len())
+                        }
+                    }
                 };
                 let bytes: Vec<u8> = self.wire.drain(..n).collect();
                 self.note(&format!("deliver {n}"));
@@ -491,6 +541,7 @@ impl<'j> Sim<'j> {
                 if !self.wire.is_empty() {
                     self.res.count("frame_fragmented", 1);
                 }
+                Some(n)
             }
             Ev::Answer(i) => {
                 let outstanding_cfg = self.client.server_reqs.iter().filter(|r| r.method == "workspace/configuration").count();
@@ -499,6 +550,7 @@ impl<'j> Sim<'j> {
                 self.note(&format!("answer {} {}", req.method, req.id));
                 self.wire.extend(frame(&resp));
                 self.res.count("answers", 1);
+                None
             }
             Ev::Gate(id) => {
                 let d = fsim::pending().into_iter().find(|g| g.id == id);
@@ -507,11 +559,17 @@ impl<'j> Sim<'j> {
                     self.res.count(&format!("gate_{}", d.kind.name()), 1);
                 }
                 fsim::fire(id);
+                None
             }
             Ev::Drain => {
-                let Some(p) = self.proc_.as_ref() else { return };
+                let Some(p) = self.proc_.as_ref() else { return None };
                 let avail = p.stdout.len();
-                let n = if self.cfg.stdout_cap == 0 { avail } else { self.rng_sched.range(1, avail) };
+                let n = match param {
+                    Some(p) => p.min(avail).max(1),
+                    None => {
+                        if self.cfg.stdout_cap == 0 { avail } else { self.rng_sizes.range(1, avail) }
+                    }
+                };
                 let bytes = p.stdout.pull(n);
                 let msgs = self.client.on_bytes(&bytes, self.step);
                 self.note(&format!("drain {n}"));
@@ -520,6 +578,7 @@ impl<'j> Sim<'j> {
                     self.note(&format!("recv {s}"));
                     oracle::on_receive(self, &m);
                 }
+                Some(n)
             }
         }
     }
@@ -537,11 +596,14 @@ impl<'j> Sim<'j> {
                 self.wire.clear();
                 self.proc_ = Some(spawn_proc(self.cfg.stdout_cap));
                 self.res.count("spawn", 1);
+                if self.client.lifetime > 1 {
+                    self.res.count("restart_orderly", 1);
+                }
                 oracle::on_spawn(self);
             }
-            Op::Kill => {
+            Op::Kill { torn } => {
                 self.note("kill");
-                self.apply_torn_writes();
+                self.apply_torn_writes(torn.as_deref());
                 oracle::before_kill(self);
                 if let Some(mut p) = self.proc_.take() {
                     p.root.kill();
@@ -575,7 +637,7 @@ impl<'j> Sim<'j> {
 
     /// The process dies with writes in flight: each pending write lands as a
     /// seeded prefix (0, 1, half, all-but-one or all bytes, or a random cut).
-    fn apply_torn_writes(&mut self) {
+    fn apply_torn_writes(&mut self, how: Option<&str>) {
         use std::io::Write;
         for g in fsim::pending() {
             if g.kind != tokio::sim::GateKind::Write {
@@ -583,19 +645,35 @@ impl<'j> Sim<'j> {
             }
             let Some(data) = fsim::peek_data(g.id) else { continue };
             let n = data.len();
-            let cut = match self.rng_fault.below(6) {
-                0 => 0,
-                1 => 1.min(n),
-                2 => n / 2,
-                3 => n.saturating_sub(1),
-                4 => n,
-                _ => self.rng_fault.below(n + 1),
+            let cut = match how {
+                Some("0") => 0,
+                Some("1") => 1.min(n),
+                Some("half") => n / 2,
+                Some("allbut1") => n.saturating_sub(1),
+                Some("all") => n,
+                Some(num) if num.parse::<usize>().is_ok() => num.parse::<usize>().unwrap().min(n),
+                _ => match self.rng_fault.below(6) {
+                    0 => 0,
+                    1 => 1.min(n),
+                    2 => n / 2,
+                    3 => n.saturating_sub(1),
+                    4 => n,
+                    _ => self.rng_fault.below(n + 1),
+                },
             };
             self.note(&format!("torn-write {} {}/{}", g.path.display(), cut, n));
-            if cut > 0 {
-                if let Ok(mut f) = std::fs::OpenOptions::new().append(true).open(&g.path) {
-                    let _ = f.write_all(&data[..cut]);
+            if how.is_none() {
+                // remember the choice in the script, so that a replay by trace tears the same way
+                if let Some(ScriptEntry { op: Op::Kill { torn }, .. }) = self.script.last_mut() {
+                    *torn = Some(cut.to_string());
                 }
+            }
+            if cut > 0 {
+                seam::as_harness(|| {
+                    if let Ok(mut f) = std::fs::OpenOptions::new().append(true).open(&g.path) {
+                        let _ = f.write_all(&data[..cut]);
+                    }
+                });
             }
             self.res.count("torn_write", 1);
             if cut > 0 && cut < n {
@@ -661,14 +739,16 @@ impl<'j> Sim<'j> {
                     oracle::at_quiescence(self, false);
                 }
             }
-            let i = self.choose(&evs);
+            let (i, param) = self.choose(&evs);
             let ev = evs[i].clone();
             let label = self.label(&ev);
             self.sig = (self.sig ^ fnv1a(label_kind(&label).as_bytes())).wrapping_mul(0x100000001B3);
-            self.decisions.push(label);
             // every event costs a little simulated time
-            seam::advance_nanos(1_000 + (self.rng_fault.below(50_000) as i64));
-            self.fire(ev);
+            seam::advance_nanos(1_000 + (self.rng_time.below(50_000) as i64));
+            match self.fire(ev, param) {
+                Some(n) => self.decisions.push(format!("{label}={n}")),
+                None => self.decisions.push(label),
+            }
         }
     }
 
@@ -676,6 +756,7 @@ impl<'j> Sim<'j> {
         if !matches!(self.res.verdict, crate::job::Verdict::Harness(_)) && self.server_dead_reason.is_none() {
             oracle::at_end(&mut self);
         }
+        self.res.count("c19_libc_short_writes", seam::IO_SHORT_WRITES.load(std::sync::atomic::Ordering::Relaxed) as u64);
         fsim::enable(false);
         seam::set_io_faults(0, 0, 0);
         let c = &self.client;
@@ -736,7 +817,7 @@ impl<'j> Sim<'j> {
 fn script_view(e: &ScriptEntry) -> Value {
     match &e.op {
         Op::Spawn => json!("SPAWN"),
-        Op::Kill => json!("KILL"),
+        Op::Kill { .. } => json!("KILL"),
         Op::Msg { json, .. } => {
             let m = json["method"].as_str().unwrap_or("response");
             let extra = match m {
@@ -754,6 +835,7 @@ fn script_view(e: &ScriptEntry) -> Value {
 
 /// The kind part of a decision label (for schedule signatures).
 fn label_kind(l: &str) -> String {
+    let l = l.split('=').next().unwrap_or(l);
     if let Some(rest) = l.strip_prefix("gate:") {
         let kind = rest.split(':').next().unwrap_or("");
         return format!("g.{kind}");
@@ -770,6 +852,9 @@ fn label_kind(l: &str) -> String {
 }
 
 fn prepare_world() {
+    seam::as_harness(prepare_world_inner)
+}
+fn prepare_world_inner() {
     for d in ["w", "w/home/.config", "w/home/.local/share", "w/home/.cache", "w/tmp", "w/ws", "w/cfg"] {
         let _ = std::fs::create_dir_all(d);
     }
